@@ -550,7 +550,6 @@ def explore(prop, tier, seed, rng, wd):
     drv = RetryDriver()
     insts = gen_instances(rng, tier)
     violations = []
-    pending = []
     # model gates
     greq = []
     for i in insts:
@@ -573,7 +572,7 @@ def explore(prop, tier, seed, rng, wd):
     stats = {"instances": len(insts), "E_instances": sum(1 for i in insts if i["kind"] == "E"),
              "O_instances": sum(1 for i in insts if i["kind"] == "O"), "gate_ok": sum(1 for k, v in gates.items() if v and not isinstance(k, tuple)),
              "gate_rejected": sum(1 for k, v in gates.items() if not v and not isinstance(k, tuple)),
-             "cmp3_gate_ok": sum(1 for k, v in gates.items() if v and isinstance(k, tuple)), "pending_finding_cases": 0, "configs": [], "sweeps": 0, "sweep_values": 0,
+             "cmp3_gate_ok": sum(1 for k, v in gates.items() if v and isinstance(k, tuple)), "configs": [], "sweeps": 0, "sweep_values": 0,
              "sweep_in_scope": 0, "points": 0, "points_in_scope": 0, "skipped_out_of_scope": 0, "neg_probes": 0,
              "forbidden_probes": 0, "allowed_probes": 0, "dropped_instances": 0, "model_ub_cases": 0, "rep_pairs": {}}
     for i in insts:
@@ -731,7 +730,7 @@ def explore(prop, tier, seed, rng, wd):
                     elif mm["val"] != r["val"] and (scope or mm["wrapped"] == "0"):
                         violations.append({"what": f"model and implementation differ for point op {w} at ({v1}, {v2})", "class": "corr-pointop", "no_input": True,
                                            "broken": "correspondence: c09op", "rec": dict(base, kind="corr", op=w, v1=v1, v2=v2, model=mans[midx[k]], impl=a)})
-                    if scope and (mm["wrapped"] != "0" or mm["narrowed"] != "0" or mm["val"] == "ub") and w not in (16, 19):
+                    if scope and (mm["wrapped"] != "0" or mm["narrowed"] != "0" or mm["val"] == "ub") and w != 16:
                         violations.append({"what": "oracle scope disagrees with the model's flags (point op)", "class": "corr-scope-o", "no_input": True,
                                            "broken": "correspondence: scope of C09_order", "rec": dict(base, kind="corr", op=w, v1=v1, v2=v2, model=mans[midx[k]])})
                 if not scope:
@@ -752,16 +751,7 @@ def explore(prop, tier, seed, rng, wd):
                 distinct.add(("O", ins["id"]))
                 if len(samples) < 12 and w in (12, 16) and abs(v1) > 2:
                     samples.append({"request": lines[k], "harness": a, "oracle_want": want})
-                own_scope = True
-                if w == 19:
-                    cpu = cpus[ins["id"]]
-                    own_scope = (steps_ok(implicit_steps(ins["r1"], ins["u1"], cpu, v1)[0]) and
-                                 steps_ok(implicit_steps(ins["r2"], ins["u2"], cpu, v2)[0]))
-                if (r["val"] == "trap" or int(r["val"]) != want or r["ub"] != "0") and w == 19 and not own_scope and ins["r1"] != ins["r2"]:
-                    pending.append({"what": "QuantityPoint <=> converts each operand in its own rep (finding F11, point flavour)",
-                                    "class": f"oracle-pointop-19-{ins['r1']}-{ins['r2']}",
-                                    "rec": dict(base, kind="oracle", op=19, v1=v1, v2=v2, got=r["val"], want=want, fits_common=True, fits_own=False)})
-                elif r["val"] == "trap" or int(r["val"]) != want or r["ub"] != "0":
+                if r["val"] == "trap" or int(r["val"]) != want or r["ub"] != "0":
                     violations.append({"what": f"point op {w} on ({v1} [{ukey(ins['u1'])}] {ins['r1']}, {v2} [{ukey(ins['u2'])}] {ins['r2']}) returns {r['val']} "
                                                f"(sanitizer reports {r['ub']}), exact answer by absolute position {want}",
                                        "class": f"oracle-pointop-{w}-{ins['r1']}-{ins['r2']}", "rec": dict(base, kind="oracle", op=w, v1=v1, v2=v2, got=r["val"], want=want)})
@@ -811,9 +801,7 @@ def explore(prop, tier, seed, rng, wd):
                 "compile probes on two compilers. distinct_nontrivial = instances with an in-scope case executed",
         "samples": samples, "exhaustive": False, "distribution": stats, "explore_s": round(time.time() - t0, 2),
     }
-    stats["pending_finding_cases"] = len(pending)
-    coverage["pending_examples"] = [p["rec"] for p in pending[:4]]
-    return coverage, violations, pending
+    return coverage, violations
 
 
 def replay(prop, rec):
